@@ -5,6 +5,7 @@ spec    ImageIO.tla: RangesExact (the byte range of every line is a function of 
 bind    the same product opened with every rpc of {1, divisors, non-divisors, n-1, n, n+1, 1024 (default), 10^6, 10^12,
         sys.maxsize}: the complete trees (structure, coords, attrs, pixel values) must be identical except for
         encoding.preferred_chunksizes, which must be {rows: min(rpc, n), columns: p}; vtrace open traces validated."""
+import json
 import os
 import sys
 
@@ -73,6 +74,112 @@ def run_case(case):
         tracefs.JITTER[0] = 0.0
         imgrun.drop_from_fs(url, case["fs"])
     res["images"] = [{k: im[k] for k in ("name", "group", "n", "p", "prefix", "bps")} for im in b.images]
+    return res
+
+
+SAME_CHILD = r"""
+import json, os, sys, threading, time, signal
+spec = json.load(open(sys.argv[1]))
+import ceos_alos2
+from harness import project, session
+d, n = spec["dir"], spec["n"]
+out = {"bad": [], "n": 0}
+def fp_of(rpc):
+    return project.fingerprint(ceos_alos2.open_alos2(d, backend_options={"use_cache": False, "records_per_chunk": rpc}))
+refs = {rpc: fp_of(rpc) for rpc in spec["rpcs"]}           # opened alone, one after the other (this is also the parent's history)
+def judge(tag, rpc, fp):
+    out["n"] += 1
+    dd = project.diff(refs[rpc], fp)
+    if dd:
+        out["bad"].append((tag, rpc, f"the tree differs from the one the same call returns alone: {dd[:2]}"))
+if spec["mode"] == "threads":
+    # several threads open the SAME product at the same time, each with its own records_per_chunk (one tree per worker)
+    if spec.get("slow"):
+        from harness import tracefs
+        tracefs.JITTER[0] = spec["slow"]
+    for rnd in range(spec["rounds"]):
+        res = {}
+        def one(rpc, delay):
+            try:
+                time.sleep(delay)
+                res[rpc] = fp_of(rpc)
+            except BaseException as e:
+                res[rpc] = f"{type(e).__name__}: {str(e)[:160]}"
+        ts = [threading.Thread(target=one, args=(rpc, 0.004 * ((i + rnd) % 3)), daemon=True) for i, rpc in enumerate(spec["rpcs"])]
+        [t.start() for t in ts]; [t.join(60) for t in ts]
+        for rpc in spec["rpcs"]:
+            if rpc not in res:
+                out["bad"].append(("threads", rpc, "open_alos2 did not return within 60 s")); out["n"] += 1
+            elif isinstance(res[rpc], str):
+                out["bad"].append(("threads", rpc, "raised " + res[rpc])); out["n"] += 1
+            else:
+                judge("threads", rpc, res[rpc])
+        if out["bad"]:
+            break
+else:
+    # worker processes forked from a parent that already opened products (multiprocessing's default start method here)
+    for rpc in spec["rpcs"]:
+        r, w = os.pipe()
+        pid = os.fork()
+        if pid == 0:
+            try:
+                os.close(r)
+                try:
+                    msg = json.dumps({"fp": fp_of(rpc)})
+                except BaseException as e:
+                    msg = json.dumps({"err": f"{type(e).__name__}: {str(e)[:160]}"})
+                with os.fdopen(w, "w") as f:
+                    f.write(msg)
+            finally:
+                os._exit(0)
+        os.close(w)
+        box = {}
+        def rd():
+            with os.fdopen(r) as f:
+                box["msg"] = f.read()
+        t = threading.Thread(target=rd, daemon=True); t.start(); t.join(40)
+        if "msg" not in box or not box["msg"]:
+            os.kill(pid, signal.SIGKILL)
+            out["bad"].append(("fork", rpc, "open_alos2 in a forked worker did not return within 40 s (the parent opened the same product before the fork)")); out["n"] += 1
+        else:
+            m = json.loads(box["msg"])
+            if "err" in m:
+                out["bad"].append(("fork", rpc, "raised in a forked worker: " + m["err"])); out["n"] += 1
+            else:
+                judge("fork", rpc, m["fp"])
+        os.waitpid(pid, 0)
+json.dump(out, open(sys.argv[2], "w"))
+"""
+
+
+def run_same(case):
+    """the same product opened with different request sizes AT THE SAME TIME by several threads, and by forked workers of a parent that
+    opened it before: each tree must be the one the same call returns alone"""
+    import subprocess
+
+    from harness import product, tracefs
+
+    base = checklib.fresh_dir("c06same_")
+    b = product.build_product(level=case["level"], images=case["images"], seed=case["seed"])
+    res = {"case": case, "bad": [], "n": 0}
+    if case["fs"] == "local":
+        d = b.write(os.path.join(base, "product"))
+        pre = ""
+    else:
+        d = f"vtrace://c06same_{case['seed']}"
+        pre = "import pickle, sys\nfrom harness import tracefs\ntracefs.register()\ntracefs.put_product(%r, pickle.load(open(%r, 'rb')))\n" % (d, os.path.join(base, "files.pkl"))
+        import pickle
+
+        pickle.dump({k: bytes(v) for k, v in b.files.items()}, open(os.path.join(base, "files.pkl"), "wb"))
+    spec, out = os.path.join(base, "spec.json"), os.path.join(base, "out.json")
+    json.dump(dict(dir=d, n=case["images"][0][2], rpcs=case["rpcs"], mode=case["mode"], rounds=case.get("rounds", 6), slow=case.get("slow")), open(spec, "w"))
+    env = checklib.worker_env(os.path.join(base, "xdg"))
+    p = subprocess.run([sys.executable, "-W", "ignore", "-c", pre.replace("\\n", "\n") + SAME_CHILD, spec, out], env=env, stdout=subprocess.PIPE, stderr=subprocess.STDOUT, text=True)
+    if not os.path.exists(out):
+        res["bad"].append(("interpreter", "*", f"died: {p.stdout[-500:]}"))
+        return res
+    o = json.load(open(out))
+    res["bad"], res["n"] = [tuple(x) for x in o["bad"]], o["n"]
     return res
 
 
@@ -185,6 +292,24 @@ def body(chk):
         chk.count(res["pairs"], f"big:{c['n']}x{c['p']}")
         for rpc, msg in res["bad"]:
             chk.violation(f"rpc-dependence:size:{c['n']}x{c['p']}:rpc={rpc}", f"{'sparse local file' if c['sparse'] else c['fs']}: {msg}", {"case": c, "rpc": rpc})
+    sames = []
+    for i, (fs, slow) in enumerate((("local", None), ("vtrace", 0.002), ("vtrace", 0.01))):
+        sames.append(dict(level=("1.5", "1.1")[i % 2], images=[("HH", None, 12, 3), ("HV", None, 12, 3)] if i % 2 == 0 else [("HH", "F1", 7, 2), ("HH", "F2", 5, 2)], seed=chk.seed + 70 + i,
+                          fs=fs, slow=slow, mode="threads", rpcs=[4, 9, 1, 1024], rounds=6 if chk.tier == "quick" else 40))
+    for i in range(2):
+        sames.append(dict(level=("1.5", "1.1")[i % 2], images=[("HH", None, 12, 3)] if i == 0 else [("HH", "F1", 7, 2), ("HH", "F2", 5, 2)], seed=chk.seed + 80 + i, fs="local", mode="fork",
+                          rpcs=[12, 13, 4096, 5, 1, 7]))
+    same_res = checklib.pmap(run_same, sames, chk.scratch, procs=len(sames))
+    for res in same_res:
+        c = res["case"]
+        chk.count(res["n"], f"same-product:{c['mode']}:{c['fs']}")
+        seen = set()
+        for tag, rpc, msg in res["bad"]:
+            if (tag, rpc) in seen:
+                continue
+            seen.add((tag, rpc))
+            chk.violation(f"rpc-dependence:{tag}:rpc={rpc}", f"[{c['fs']}{', slow reads' if c.get('slow') else ''}] records_per_chunk={rpc} ({'opened by 4 threads at once, each with its own value' if tag == 'threads' else 'opened in a forked worker'}): {msg}",
+                          {"case": c, "rpc": rpc})
     results = checklib.pmap(run_case, cases, chk.scratch)
     batch = iotrace.TraceBatch(os.path.join(chk.scratch, "c06.ndjson"))
     tinfo = {}
@@ -247,7 +372,8 @@ def body(chk):
     chk.assumptions += ["trees are compared after loading every variable (pixels included) and normalising NaN / -0.0",
                         "very large rpc = 10^6, 10^12, sys.maxsize; the default (option absent) is 1024",
                         "size family: 70 lines of 990 000 bytes (chunks across 2^26) in memory, 2200 lines of 999 992 bytes (chunks across 2^31) as a "
-                        "sparse local file read once in 64-line requests, then opened through its index with every rpc"]
+                        "sparse local file read once in 64-line requests, then opened through its index with every rpc",
+                        "the same product opened by 4 threads at once with 4 different rpc (local, slow non-local), and by forked workers of a parent that opened it before (6 rpc): each tree equals the one opened alone"]
     from harness import sessioncheck
 
     sessioncheck.standard(chk)
